@@ -298,11 +298,9 @@ _public_ int m_mod_ps_subscribe(m_mod_t *mod, const char *topic, m_src_flags fla
         } else {
             ev_src_t *old_sub = m_map_get(mod->subscriptions, topic);
             if (old_sub) {
-                if (old_sub->flags == flags) {
+                const bool new_autofree_ptr = (flags & M_SRC_AUTOFREE) && old_sub->userptr != userptr;
+                if (old_sub->flags == flags && !new_autofree_ptr) {
                     /* Only update userptr */
-                    if ((flags & M_SRC_AUTOFREE) && old_sub->userptr != userptr) {
-                        memhook._free((void *)old_sub->userptr);
-                    }
                     old_sub->userptr = userptr;
                     regfree(&regex);
                     return 0;
@@ -310,6 +308,8 @@ _public_ int m_mod_ps_subscribe(m_mod_t *mod, const char *topic, m_src_flags fla
                 /*
                  * Drop old subscription: it owns the (possibly dupped) topic string
                  * that is used as key in the map, thus it cannot just be overwritten.
+                 * It also owns its auto-free user pointer, that events already delivered
+                 * (stashed, retained) still carry: it is freed with the subscription, once they are gone.
                  */
                 m_map_remove(mod->subscriptions, topic);
             }
